@@ -12,8 +12,11 @@ package cli
 //@   ensures len(args) == 0 ==> err != nil
 //@   ensures err == nil && dynIs[*Generate](result) ==> unboxed[*Generate](result).Config != nil && unboxed[*Generate](result).Config.EnumTransformers != nil
 
+// CLI defaults: -build-tags goverter, -output-constraint !goverter; every -g/-global value becomes a global line
 //@ func parseGen
 //@   props C17 C16 C12
+//@   at@C16 call fs.String#1 assert arg0 == "build-tags" && arg1 == "goverter"
+//@   at@C16 call fs.String#2 assert arg0 == "output-constraint" && arg1 == "!goverter"
 //@   ensures err != nil ==> result == nil
 //@   ensures err == nil ==> result != nil && (dynIs[*Help](result) || dynIs[*Generate](result))
 //@   ensures err == nil && dynIs[*Generate](result) ==> unboxed[*Generate](result).Config != nil && unboxed[*Generate](result).Config.EnumTransformers != nil
